@@ -349,8 +349,17 @@ C43Bad(U, dl, d) ==
         borrowBad == { r \in { RouteBad(U, dl, d, b[2].addr, b[2].host, Val(U, dl, b[1]).host # "") : b \in plain } : r # "" }
         \* local workloads: their /32 must be flagged so that no blackhole for the local block covers it
         wepBad == { nt \in wepNets : RoutesAt(d, nt) = {} \/ \E id \in RoutesAt(d, nt) : ~d.routes[id].localWorkload }
+        \* a remote node's tunnel address that lies in a block owned by another node is a borrowed address: its route
+        \* must say so (the route manager programs borrowed tunnel addresses individually)
+        tunBad == { k \in Live(U, dl, "node") :
+                      LET v == Val(U, dl, k) IN
+                      /\ v.name # U.local /\ v.hasVxlan
+                      /\ \E b \in Live(U, dl, "block") : /\ Val(U, dl, b).host # "" /\ Val(U, dl, b).host # v.name
+                                                         /\ Covers(Val(U, dl, b).cidr, v.vxlanAddr)
+                      /\ (RoutesAt(d, v.vxlanAddr) = {} \/ \E id \in RoutesAt(d, v.vxlanAddr) : ~d.routes[id].borrowed) }
     IN  IF blockBad # {} THEN "block:" \o First(blockBad)
         ELSE IF borrowBad # {} THEN "borrowed:" \o First(borrowBad)
         ELSE IF wepBad # {} THEN "local-workload-route-not-flagged"
+        ELSE IF tunBad # {} THEN "borrowed-tunnel-address-not-flagged"
         ELSE ""
 =============================================================================
